@@ -288,4 +288,102 @@ theorem pinned_float_unchecked :
 example : serializeFloat 5 2 true 12345 = .ok 12345 ∧ (serializeFloat 5 2 true 100000).isErr = true ∧
     (serializeFloat 5 2 false 0).isErr = true := by decide
 
+/-! ### reading a `Decimal128` value as text -/
+
+/-- `format_total_exact`: for every i128 `v` and every i8 scale `s`, `format_decimal` (as called by the
+repaired reader) returns a text — no buffer overrun, no negation overflow — that is a plain decimal number
+(`Dec`) denoting exactly `v / 10^s`, with a minus sign exactly for negative `v`. -/
+theorem format_total_exact (v s : Int) (hv : inI128 v) (hs : inI8 s) :
+    ∃ txt, formatDecimal v s = .ok txt ∧ Dec txt ∧ DenotesScaled txt v s ∧ (isNeg txt = true ↔ v < 0) :=
+  formatDecimal_exact v s hv hs
+
+theorem format_no_panic (v s : Int) (hv : inI128 v) (hs : inI8 s) (site : String) :
+    formatDecimal v s ≠ panic site := by
+  obtain ⟨txt, h, -⟩ := format_total_exact v s hv hs
+  rw [h]; intro h'; cases h'
+
+/-- `format_parse`: writing the produced text back into a `Decimal128(38, s)` column stores `v` again
+(every value a Decimal128 can hold, `|v| < 10^38`, every scale) -/
+theorem format_parse (v s : Int) (hs : inI8 s) (hv : v.natAbs < 10 ^ 38) :
+    ∃ txt, formatDecimal v s = .ok txt ∧ serializeStr 38 s txt = .ok v := by
+  have h38 := pow38_le
+  have hv' : inI128 v := by unfold inI128 I128_MIN I128_MAX; omega
+  obtain ⟨txt, h1, h2, h3, h4⟩ := format_total_exact v s hv' hs
+  refine ⟨txt, h1, ?_⟩
+  have hexp := expected_of_denotes 38 s txt v h2 h3 h4 hv
+  rcases serializeStr_spec 38 s txt (by omega) (by omega) with ⟨w, e1, e2⟩ | ⟨e1, -⟩
+  · rw [hexp] at e1; cases e1; exact e2
+  · rw [hexp] at e1; cases e1
+
+/-- more generally, at any precision that can hold `v` -/
+theorem format_parse_precision (p : Nat) (v s : Int) (hp1 : 1 ≤ p) (hp : p ≤ 38) (hs : inI8 s) (hv : v.natAbs < 10 ^ p) :
+    ∃ txt, formatDecimal v s = .ok txt ∧ serializeStr p s txt = .ok v := by
+  have h38 := pow38_le
+  have hp' := Nat.pow_le_pow_right (n := 10) (by omega) hp
+  have hv' : inI128 v := by unfold inI128 I128_MIN I128_MAX; omega
+  obtain ⟨txt, h1, h2, h3, h4⟩ := format_total_exact v s hv' hs
+  refine ⟨txt, h1, ?_⟩
+  have hexp := expected_of_denotes p s txt v h2 h3 h4 hv
+  rcases serializeStr_spec p s txt hp1 hp with ⟨w, e1, e2⟩ | ⟨e1, -⟩
+  · rw [hexp] at e1; cases e1; exact e2
+  · rw [hexp] at e1; cases e1
+
+/-- grammar lemma: a rendered `sign? digit* ('.' digit*)?` splits into exactly its parts, so `Dec`
+(defined through `decompose`) is the stated grammar and the value function is well defined -/
+theorem grammar_unique (x : Parts) (h : x.wf = true) : decompose x.render = x ∧ Dec x.render := by
+  have hI : AllDigits x.int := by
+    unfold Parts.wf at h
+    simp only [Bool.and_eq_true, List.all_eq_true, decide_eq_true_eq] at h
+    exact h.1.1
+  have := decompose_render x hI
+  exact ⟨this, by unfold Dec; rw [this]; exact h⟩
+
+theorem dec_iff_grammar (txt : List UInt8) : Dec txt ↔ ∃ x : Parts, x.wf = true ∧ txt = x.render := by
+  constructor
+  · intro h
+    refine ⟨decompose txt, h, ?_⟩
+    -- every text is the rendering of its own decomposition
+    unfold decompose Parts.render splitPoint
+    have hs : txt = (splitSign txt).1.bytes ++ (splitSign txt).2 := by
+      unfold splitSign; split <;> rfl
+    have ht := List.takeWhile_append_dropWhile (p := (· != 46)) (l := (splitSign txt).2)
+    cases hd : (splitSign txt).2.dropWhile (· != 46) with
+    | nil =>
+      rw [hd] at ht
+      simp only [List.append_nil] at ht ⊢
+      rw [ht]; exact hs
+    | cons c f =>
+      have hc : c = 46 := by
+        have := List.head_dropWhile_not (· != 46) (l := (splitSign txt).2) (by rw [hd]; exact List.cons_ne_nil _ _)
+        simp only [hd, List.head_cons] at this
+        simpa using this
+      subst hc
+      rw [hd] at ht
+      simp only [List.append_assoc]
+      rw [ht]; exact hs
+  · rintro ⟨x, hx, rfl⟩
+    exact (grammar_unique x hx).2
+
+/-- defect #13: the pinned reader (64-byte buffer) unwinds for scale ≥ 62 / ≤ −25 … -/
+theorem pinned_format_panics :
+    formatDecimalPinned 1 63 = panic "copy_within: dest is out of bounds" ∧
+    formatDecimalPinned (-1) 62 = panic "copy_within: dest is out of bounds" ∧
+    formatDecimalPinned 1 (-64) = panic "range end index out of range for the format buffer" ∧
+    formatDecimalPinned I128_MIN (-25) = panic "range end index out of range for the format buffer" ∧
+    formatDecimalPinned I128_MAX 100 = panic "copy_within: dest is out of bounds" := by decide
+
+/-- … and (found while building this check) for scale −128, where `-scale` overflows the `i8`,
+even with the large buffer -/
+theorem pinned_format_negate_panics :
+    formatDecimalPinned 1 (-128) = panic "attempt to negate with overflow" ∧
+    formatDecimalNegPinned 1 (-128) = panic "attempt to negate with overflow" ∧
+    formatDecimalSmallBuffer 1 (-128) = panic "range end index out of range for the format buffer" := by decide
+
+-- "-0.0123", "-1230000", "12.345", "0" and the extremes
+example : formatDecimal (-123) 4 = .ok [45, 48, 46, 48, 49, 50, 51] := by decide
+example : formatDecimal (-123) (-4) = .ok [45, 49, 50, 51, 48, 48, 48, 48] := by decide
+example : formatDecimal 12345 3 = .ok [49, 50, 46, 51, 52, 53] := by decide
+example : formatDecimal 0 (-7) = .ok [48] := by decide
+example : (formatDecimal I128_MIN (-128)).isOk = true ∧ (formatDecimal I128_MAX 127).isOk = true := by decide
+
 end SaModel.Props.C15
